@@ -467,16 +467,19 @@ package workflow
 //@   on call multierror.Append : assert failed && !filed ; filed = true
 //@   ensures failed ==> filed
 
-// the stage callback every role kind hands to the template sequence: after STAGE0 (only `enabled` processed so far) a
-// disabled role short-circuits the sequence with a RoleDisabledError; otherwise the stage's own error passes through
+// the stage callback every role kind hands to the template sequence: an error of the stage ALWAYS passes through (a
+// template error in any role makes the load fail - also one in the `enabled` expression, which leaves the raw text in
+// the field so that the role does not read as enabled); after an error-free STAGE0 (only `enabled` processed so far) a
+// disabled role short-circuits the sequence with a RoleDisabledError
 //@ closure MakeDisabledRoleCallback #1
 //@   property C15
 //@   ghostvar asked bool = false
 //@   ghostvar en bool = false
 //@   on aftercall Role.IsEnabled : en = result ; asked = true
-//@   ensures stage == template.STAGE0 ==> asked
-//@   ensures stage == template.STAGE0 && !en ==> result != nil && result is *template.RoleDisabledError
-//@   ensures !(stage == template.STAGE0 && !en) ==> result == err
+//@   ensures err != nil ==> result == err
+//@   ensures err == nil && stage == template.STAGE0 ==> asked
+//@   ensures err == nil && stage == template.STAGE0 && !en ==> result != nil && result is *template.RoleDisabledError
+//@   ensures err == nil && !(stage == template.STAGE0 && !en) ==> result == nil
 
 // ---------------------------------------------------------------------------------------------------------
 // C14: an included subworkflow hangs below the include role's OWN level of each kind: the loader attaches the loaded
